@@ -6,3 +6,115 @@ Example C20_model_smoke :
   snd (trun c 0 (topen c 0) [(500, IConnect 1500); (900, IIdentify); (2500, IObserve); (2600, IPongOk); (10000, IObserve)])
   = [EPing 2400; EPing 4100; ETimeout 8600].
 Proof. vm_compute. reflexivity. Qed.
+
+(* ---- theorems (types pasted verbatim from Proofs/TimerProofs.v by tools/pin.py) ---- *)
+From NW Require Import Proofs.TimerProofs.
+
+Theorem C20_heartbeat_is_clamped :
+  forall (c : tcfg) (req : N), hb_min c <= hb_max c -> hb_min c <= negotiate c req <= hb_max c.
+Proof. exact C20_heartbeat_clamped. Qed.
+
+Theorem C20_heartbeat_zero_is_max :
+  forall c : tcfg, negotiate c 0 = hb_max c.
+Proof. exact C20_heartbeat_default. Qed.
+
+Theorem C20_heartbeat_in_range_kept :
+  forall (c : tcfg) (req : N),
+    hb_min c <= req <= hb_max c -> req <> 0 -> negotiate c req = req.
+Proof. exact C20_heartbeat_in_range. Qed.
+
+Theorem C20_connect_deadline_exact :
+  forall (c : tcfg) (t0 d now req : N) (f : nat),
+    advance (S f) (TConnecting d) now =
+    (if d <=? now then (TClosed, [ETimeout d]) else (TConnecting d, [])) /\
+    (now < d ->
+     tstep c t0 (TConnecting d) now (IConnect req) =
+     (TConnected (now + auth_to c) (negotiate c req), [])) /\
+    (d <= now -> tstep c t0 (TConnecting d) now (IConnect req) = (TClosed, [ETimeout d])).
+Proof. exact C20_connect_deadline. Qed.
+
+Theorem C20_auth_deadline_exact :
+  forall (c : tcfg) (t0 d hb now : N) (f : nat),
+    advance (S f) (TConnected d hb) now =
+    (if d <=? now then (TClosed, [ETimeout d]) else (TConnected d hb, [])) /\
+    (now < d -> tstep c t0 (TConnected d hb) now IIdentify = (TIdle (now + hb) hb 0 0 false, [])) /\
+    (d <= now -> tstep c t0 (TConnected d hb) now IIdentify = (TClosed, [ETimeout d])).
+Proof. exact C20_auth_deadline. Qed.
+
+Theorem C20_handshake_in_time_no_timeout :
+  forall (c : tcfg) (t0 t1 t2 req : N),
+    t1 < t0 + connect_to c ->
+    t2 < t1 + auth_to c ->
+    trun c t0 (topen c t0) [(t1, IConnect req); (t2, IIdentify)] =
+    (TIdle (t2 + negotiate c req) (negotiate c req) 0 0 false, []).
+Proof. exact C20_handshake_in_time. Qed.
+
+Theorem C20_idle_is_pinged_within_two_intervals :
+  forall (f : nat) (w hb last cnt now : N),
+    (3 <= f)%nat ->
+    w + hb <= now ->
+    exists (t : N) (s' : tstate) (o : list tout),
+      advance f (TIdle w hb last cnt false) now = (s', EPing t :: o) /\
+      w <= t <= w + hb /\ (cnt = last -> t = w) /\ (cnt <> last -> t = w + hb).
+Proof. exact C20_idle_pinged_within_two. Qed.
+
+Theorem C20_ping_timeout_exact :
+  forall (c : tcfg) (t0 d hb cnt now : N) (f : nat),
+    (advance (S f) (TPingWait d hb cnt) now = (TClosed, [ETimeout d]) <-> d <= now) /\
+    (now < d -> advance (S f) (TPingWait d hb cnt) now = (TPingWait d hb cnt, [])) /\
+    (now < d ->
+     tstep c t0 (TPingWait d hb cnt) now IPongOk = (TIdle (now + hb) hb cnt cnt false, [])) /\
+    (now < d -> tstep c t0 (TPingWait d hb cnt) now IPongBad = (TClosed, [EBadPong now])) /\
+    (d <= now -> forall i : tin, tstep c t0 (TPingWait d hb cnt) now i = (TClosed, [ETimeout d])).
+Proof. exact C20_ping_timeout. Qed.
+
+Theorem C20_ping_then_wait_three_intervals :
+  forall (f : nat) (w hb last cnt : N) (mb : bool) (now : N) (s' : tstate) 
+      (o : list tout) (t : N),
+    (3 <= f)%nat ->
+    advance f (TIdle w hb last cnt mb) now = (s', o) ->
+    In (EPing t) o ->
+    (t = w \/ t = w + hb) /\
+    t <= now /\
+    (s' = TPingWait (t + 3 * hb) hb cnt /\ o = [EPing t] /\ now < t + 3 * hb /\ mb = false \/
+     s' = TClosed /\ o = [EPing t; ETimeout (t + 3 * hb)] /\ t + 3 * hb <= now /\ mb = false \/
+     s' = TClosed /\ o = [EPing t; EBadPong t] /\ mb = true).
+Proof. exact C20_ping_creates_wait. Qed.
+
+Theorem C20_active_is_never_pinged :
+  forall (c : tcfg) (t0 tc ti req t1 : N) (ts : list N) (now : N),
+    tc < t0 + connect_to c ->
+    ti < tc + auth_to c ->
+    t1 < ti + negotiate c req ->
+    gaps_ok (negotiate c req) t1 ts ->
+    now < last ts t1 + negotiate c req ->
+    exists w' last' cnt' : N,
+      trun c t0 (topen c t0)
+        ((tc, IConnect req) :: (ti, IIdentify) :: reqs (t1 :: ts) ++ [(now, IObserve)]) =
+      (TIdle w' (negotiate c req) last' cnt' false, []) /\ now < w'.
+Proof. exact C20_active_connection_never_pinged. Qed.
+
+Theorem C20_stale_pong_gets_closed :
+  forall (c : tcfg) (t0 w hb cnt p now : N),
+    p < w ->
+    w <= now ->
+    trun c t0 (TIdle w hb cnt cnt false) [(p, IPongOk); (now, IObserve)] =
+    (TClosed, [EPing w; EBadPong w]).
+Proof. exact C20_unsolicited_pong_then_close. Qed.
+
+Theorem C20_closed_is_final :
+  forall (c : tcfg) (t0 : N) (evs : list (N * tin)), trun c t0 TClosed evs = (TClosed, []).
+Proof. exact C20_closed_final_trun. Qed.
+
+Theorem C20_fuel_is_adequate :
+  forall (c : tcfg) (t0 : N) (s : tstate) (now : N) (i : tin),
+    tstep c t0 s now i =
+    (let
+     '(s1, o1) := advance_spec s now in let '(s2, o2) := apply_in c now s1 i in (s2, o1 ++ o2)).
+Proof. exact C20_tstep_fuel_adequate. Qed.
+
+Theorem C20_output_times_bounded :
+  forall (c : tcfg) (t0 : N) (s : tstate) (now : N) (i : tin) (e : tout),
+    In e (snd (tstep c t0 s now i)) ->
+    tout_time e <= now /\ (due_le s (tout_time e) \/ e = EBadPong now /\ i = IPongBad).
+Proof. exact C20_tstep_output_times. Qed.
